@@ -405,8 +405,9 @@ def run(ctx):
         "shift covariance at the implementation period is asserted beyond the start-up horizon only (intermediate streams drop their negative-time "
         "part); at the reduced period only for in-band signals in steady state (it is a spectral fact: C01/C02)",
         "that the planner never emits half-band stages alone (hypothesis of gain_always_carried) is checked on exported plans of the sweep, not proved",
-        "plans matching known finding F1 (a dft stage with power-of-two L not dividing block_len) receive no signal: they are set aside, counted, "
-        "and up to 4 of them are probed with a constant input in a child process (KNOWN-FINDING line when the misbehaviour shows)",
+        "F1 (non-linear phase + power-of-two-L dft stage with L not dividing block_len) is repaired in /repo (279ce1a) and listed as fixed: no configuration is "
+        "set aside, non-linear phase with L = 8 .. 256 post stages is measured like everything else (the set-aside / child-process probe path of "
+        "checks/_signal.py only returns if an F1 entry is listed as known again)",
         "datatype clause: the typed run may differ from io_spec.scale x the float64 run by the output format's resolution (integer rounding, TPDF "
         "dither for int16, float32 mantissa) plus scale x 2^(1-bits)",
         "known findings of the pinned tree (known_findings.d/signal.json: F-PH1 on DC / spectral clauses, F-SG4 on the clauses that move the gain of a "
